@@ -63,6 +63,10 @@ var c18slices = []c18slice{
 	{"<string,string,[]string>/3", []reflect.Type{tString, tString, tStrings}, 3, 2},
 	{"<int,string,int64>/3", []reflect.Type{tInt, tString, tInt64}, 3, 2},
 	{"<[]int,int,int>/2", []reflect.Type{tInts, tInt, tInt}, 2, 2},
+	// last column of a slice type: the parameter list of a variadic function (int, ...string) is
+	// recorded as (int, []string) and looks exactly like these columns, which it cannot take
+	{"<int,[]string>", []reflect.Type{tInt, tStrings}, 1, 2},
+	{"<[]int>", []reflect.Type{tInts}, 1, 1},
 }
 
 func (s c18slice) build() bigslice.Slice {
@@ -515,6 +519,13 @@ func c18sigs(s c18slice) []c18sig {
 		sigs = append(sigs, c18sig{In: []reflect.Type{cols[0], reflect.SliceOf(last)}, Out: out, Variadic: true})
 		sigs = append(sigs, c18sig{In: append(append([]reflect.Type{}, cols...), reflect.SliceOf(tInt)), Out: out, Variadic: true})
 		sigs = append(sigs, c18sig{In: append(append([]reflect.Type{}, cols...), tInt, reflect.SliceOf(tInt)), Out: out, Variadic: true})
+		if last.Kind() == reflect.Slice {
+			// the variadic parameter has the type of the last column itself (...T over a []T column)
+			sigs = append(sigs, c18sig{In: append([]reflect.Type{}, cols...), Out: out, Variadic: true})
+			sigs = append(sigs, c18sig{Ctx: true, In: append([]reflect.Type{}, cols...), Out: out, Variadic: true})
+			// and the well-typed neighbour: ...[]T takes the []T column
+			sigs = append(sigs, c18sig{In: append(append([]reflect.Type{}, cols[:len(cols)-1]...), reflect.SliceOf(last)), Out: out, Variadic: true})
+		}
 	}
 	for _, v := range []any{3, "x", struct{}{}, []int{1}} {
 		sigs = append(sigs, c18sig{NonFunc: v})
